@@ -173,7 +173,9 @@ MonGsMaria(e) ==
   Chk("C19.mariaset", e, {
     <<WellFormedMaria(o.text) /\ MariaEntries(o.text) = AsSet(e.entries) /\ Len(Split(o.text, 44)) = Len(e.entries), "String() of a MariaDB set">>,
     <<o.unchangedByString, "printing a MariaDB set changed the set">>,
-    <<~o.parseErr /\ o.text2 = o.text /\ o.eq, "parsing the printed MariaDB set does not return an equal set">>})
+    <<~o.parseErr /\ o.text2 = o.text /\ o.eq, "parsing the printed MariaDB set does not return an equal set">>,
+    <<o.contains = Ma!ContainsOp(e.entries, e.other) /\ o.containedBy = Ma!ContainsOp(e.other, e.entries),
+      "MariaDB Contains does not compare sequence numbers within each domain (whatever the order of the members)">>})
   \cup MariaHist(e, e.entries, o.text, e.ops, e.hist)
 
 (***************************************************************************)
@@ -243,7 +245,7 @@ MonTableMap(e) ==
 (***************************************************************************)
 RECURSIVE TrimNul(_)
 TrimNul(t) == IF t # <<>> /\ t[Len(t)] = 0 THEN TrimNul(Sub(t, 1, Len(t) - 1)) ELSE t
-HdrOK(e) == e.obs.valid /\ e.obs.ts = e.ts /\ e.obs.np = e.np
+HdrOK(e) == e.obs.valid /\ ~e.obs.striperr /\ e.obs.ts = e.ts /\ e.obs.np = e.np
 
 MonEvent(e) ==
   LET o == e.obs IN
@@ -264,6 +266,12 @@ MonEvent(e) ==
                               <<o.sql = e.sql, "QUERY SQL text">>,
                               <<o.charset = e.charset, "QUERY session charset (whatever other status variables are present)">>})
     [] e.fn = "ev.xid" -> Chk("C16.xid", e, {<<o.is /\ HdrOK(e), "XID header">>})
+    [] e.fn = "ev.any" ->
+         Chk("C16.checksum", e, {
+           <<HdrOK(e), "header of an event (any type, any body length) after applying the checksum algorithm">>,
+           <<o.stripped = (IF e.alg = 1 THEN Sub(o.raw, 1, Len(o.raw) - 4) ELSE o.raw) /\
+             o.cks = (IF e.alg = 1 THEN Sub(o.raw, Len(o.raw) - 3, Len(o.raw)) ELSE <<>>),
+             "applying the announced checksum algorithm does not remove exactly the trailing checksum">>})
     [] e.fn = "ev.intvar" ->
          Chk("C16.intvar", e, {<<~o.err /\ ~o.panic /\ o.is /\ HdrOK(e), "INTVAR header">>, <<o.kind = e.kind /\ o.value = e.value, "INTVAR kind / value">>})
     [] e.fn = "ev.rand" ->
@@ -369,6 +377,7 @@ WriterOK(e) ==
                       TableMapBody(e.tidw, e.tidtext, e.db, e.name, e.cols, e.tail), e.cksum))
     [] e.fn = "ev.rotate" -> W(e, IsEvent(e.obs.raw, e.tst, 4, e.sidt, e.npt, e.flags, RotateBody(e.pos, e.file), Crc(e)))
     [] e.fn = "ev.xid" -> W(e, IsEvent(e.obs.raw, e.tst, 16, e.sidt, e.npt, e.flags, XidBody(e.xid8), Crc(e)))
+    [] e.fn = "ev.any" -> W(e, IsEvent(e.obs.raw, e.tst, e.typ, e.sidt, e.npt, e.flags, e.body, Crc(e)))
     [] e.fn = "ev.intvar" -> W(e, IsEvent(e.obs.raw, e.tst, 5, e.sidt, e.npt, e.flags, IntVarBody(e.kind, e.value), Crc(e)))
     [] e.fn = "ev.rand" -> W(e, IsEvent(e.obs.raw, e.tst, 13, e.sidt, e.npt, e.flags, RandBody(e.s1, e.s2), Crc(e)))
     [] e.fn = "ev.query" ->
@@ -403,7 +412,7 @@ Mon(e) ==
     [] e.fn = "txjson" -> MonTxJson(e)
     [] e.fn = "json" -> MonJson(e)
     [] e.fn = "tablemap" -> MonTableMap(e)
-    [] e.fn \in {"ev.fde", "ev.rotate", "ev.query", "ev.xid", "ev.intvar", "ev.rand"} -> MonEvent(e)
+    [] e.fn \in {"ev.fde", "ev.rotate", "ev.query", "ev.xid", "ev.intvar", "ev.rand", "ev.any"} -> MonEvent(e)
     [] e.fn = "isvalid" -> MonIsValid(e)
     [] e.fn = "gs56.add" -> MonGs56Add(e)
     [] e.fn = "gs56.history" -> MonGs56History(e)
